@@ -332,6 +332,11 @@ centralised_messages = {
         "description": "Occurs when the output of a component in a HAVING clause "
         "is not boolean as required.",
     },
+    "1-1-2-4": {
+        "message": "At op {op}: Grouping component {id_name} not found in the Dataset.",
+        "description": "Raised when a HAVING clause is evaluated with a grouping component "
+        "that does not belong to the aggregated Dataset.",
+    },
     # Analytic errors
     "1-1-3-2": {
         "message": "At op {op}: Only Identifiers are allowed for partitioning, "
